@@ -52,11 +52,12 @@ type Report struct {
 	Steps        int64
 	Wall         time.Duration
 
-	Queries, Sat, Unsat, Unknown, Errors int
-	SolveTime                            time.Duration
-	FuncHits                             map[string]int64
-	IntrHits                             map[string]int64
-	SkippedInits                         map[string]bool
+	Queries, Sat, Unsat, Unknown, Errors      int
+	SolveTime                                 time.Duration
+	FuncHits                                  map[string]int64
+	CrossChecked, CrossAgreed, CrossUndecided int
+	IntrHits                                  map[string]int64
+	SkippedInits                              map[string]bool
 }
 
 // Config describes one exploration.
@@ -79,6 +80,7 @@ type Config struct {
 	QueryLog    func(worker int) interface{ Write([]byte) (int, error) }
 	StopOnViol  bool
 	Witness     bool
+	CrossEvery  int
 	Tolerant    func(string) bool
 	Stubs       map[string]string // function full name -> harness function name (same package as Entry)
 }
@@ -177,6 +179,7 @@ func Explore(cfg *Config) (*Report, error) {
 			m.KnownListed = cfg.KnownListed
 			m.Trace = cfg.Trace
 			m.Witness = cfg.Witness
+			m.CrossEvery = cfg.CrossEvery
 			if os.Getenv("SYMGO_DECIDE_PROFILE") != "" {
 				m.DecideProfile = map[string]int64{}
 			}
@@ -286,6 +289,7 @@ func Explore(cfg *Config) (*Report, error) {
 			rep.FuncHits = m.FuncHits
 			rep.IntrHits = m.IntrHits
 			rep.SkippedInits = m.SkippedInits
+			rep.CrossChecked, rep.CrossAgreed, rep.CrossUndecided = m.CrossChecked, m.CrossAgreed, m.CrossUndecided
 			for k, v := range m.DecideProfile {
 				rep.IntrHits["decide@"+k] += v
 			}
@@ -335,6 +339,9 @@ func Explore(cfg *Config) (*Report, error) {
 		tot.Unknown += r.Unknown
 		tot.Errors += r.Errors
 		tot.SolveTime += r.SolveTime
+		tot.CrossChecked += r.CrossChecked
+		tot.CrossAgreed += r.CrossAgreed
+		tot.CrossUndecided += r.CrossUndecided
 		for k, v := range r.FuncHits {
 			tot.FuncHits[k] += v
 		}
